@@ -119,7 +119,7 @@ def calculate_sequence_locks(ctx, P):
     want = {
         T: (re.compile(re.escape("%s = std::max(%s, (((65535 & " % (T, T)) + seq + re.escape(") << 9) + ") + anc + re.escape(") - 1)")), "SIZES && V2 && FLAG && !DISABLE && TIME",
             "min time = max(min time, MTP(ancestor at max(coin height - 1, 0)) + ((nSequence & 0xffff) << 9) - 1), exactly for enabled time-based inputs"),
-        H: (re.compile(re.escape("%s = std::max(%s, ((65535 & " % (H, H)) + seq + re.escape(") + ") + ph + re.escape(") - 1)")), "SIZES && V2 && FLAG && !DISABLE && !TIME",
+        H: (re.compile(re.escape("%s = std::max(%s, (" % (H, H)) + r"(\(int\))?" + re.escape("(65535 & ") + seq + re.escape(") + ") + ph + re.escape(") - 1)")), "SIZES && V2 && FLAG && !DISABLE && !TIME",
             "min height = max(min height, coin height + (nSequence & 0xffff) - 1), exactly for enabled height-based inputs"),
     }
     for name, (rx, spec, text) in want.items():
